@@ -92,7 +92,7 @@ func vC12Unary[T vNum]() {
 	}
 	vAssert(rd.Dtype() == a.Dtype(), "result-dtype")
 	got := vSnapshot[T](rd)
-	kfReuseOrder := (mode == "reuse" || mode == "incr") && ((vCfgStr("ld") == "F") != (vCfgStr("la") == "F"))
+	kfReuseOrder := (mode == "reuse" || mode == "incr") && ((vCfgStr("ld") == "F") != (vCfgStr("la") == "F")) // (unary incr into the other data order is wrong on the pinned tree too; binary arithmetic incr is not: see h_c06.go)
 	for k := 0; k < n; k++ {
 		if mode == "incr" {
 			switch op {
